@@ -815,7 +815,7 @@ Lemma native_sort_eq : forall s pa args,
     | (Fuel, s') => (Fuel, s')
     | (Unsupp, s') => (Unsupp, s')
     end
-  else (Panic, s).
+  else (Ok NError, s).
 Proof.
   intros s pa args. unfold native_call, this_value. unfold bind at 1 2. unfold m_load at 1.
   unfold ret at 1. unfold bind at 1. unfold get_heap at 1. cbv zeta.
@@ -861,9 +861,9 @@ Proof.
     + split; [now rewrite Ha|exact Hw].
 Qed.
 
-Lemma sort_panics : forall s pa l args,
+Lemma sort_errors : forall s pa l args,
   abs (hp s) pa = Some l -> forallb copyable l = false ->
-  native_call NSort args (Some pa) s = (Panic, s).
+  native_call NSort args (Some pa) s = (Ok NError, s).
 Proof.
   intros s pa l args Habs Hcopy. rewrite native_sort_eq. cbv zeta.
   now rewrite (abs_contents _ _ _ Habs), Hcopy.
@@ -1244,7 +1244,7 @@ Proof.
     + destruct (sort_stable_copy s pa l [] Hwf Habs Hcopy) as (h' & b & n & Heq & _ & Hc & _ & Ha & Hw).
       rewrite Heq. cbn [fst snd]. rewrite set_hp_hp. unfold obs_array. rewrite Hc.
       repeat split; assumption.
-    + rewrite (sort_panics s pa l [] Habs Hcopy). simpl. repeat split; assumption.
+    + rewrite (sort_errors s pa l [] Habs Hcopy). simpl. repeat split; assumption.
 Qed.
 
 (* ================================================================ histories *)
